@@ -64,7 +64,7 @@ def strip_case(case):
 def end_label_finding_shape(case, issue):
     """the recorded finding 'end label captured by the proxy' is recognised on the input: the block that carries the end
     label belongs to no function (two function-less blocks are never 'in the same function', so the empty tail cannot be
-    joined back), or a request puts a patch that ends in a label at that block's end"""
+    joined back), or a request of the batch puts code into that block"""
     m = re.search(r"symbol (\S+) \(end of a block\)", issue.get("msg", ""))
     if not m:
         return True
@@ -76,9 +76,10 @@ def end_label_finding_shape(case, issue):
     d = flat[idx]
     if d.get("func") is None:
         return True
+    # ... or code is put into that block by the batch (the finding: 'when code is inserted at the block's end and the
+    # zero-sized tail cannot be joined back' - the patch ends in a label, in a terminator, ...)
     for e in case.get("edits", []):
-        asm = (e.get("asm") or "").strip().splitlines()
-        if e.get("block") == idx and asm and asm[-1].strip().endswith(":"):
+        if e.get("block") == idx and e.get("op") in ("insert", "replace"):
             return True
     return False
 
